@@ -367,6 +367,8 @@ type Scenario struct {
 	// FaultAt > 0: the FaultAt-th hooked filesystem operation of process FaultProc
 	// fails with an injected I/O error (once)
 	FaultProc, FaultAt int
+	// HookReads: reads of table files are hooked operations too (they can take the fault)
+	HookReads bool
 }
 
 type Result struct {
@@ -402,6 +404,7 @@ func (l *Lab) Run(sc *Scenario, dirName string) *Result {
 	w.Versions = []Version{{Names: append([]string(nil), tmpl.names...), Dump: tmpl.dump, Readable: true, What: "init", By: -1}}
 	s := vos.NewSched()
 	s.SkipTmpWrites = sc.SkipTmpWrites
+	s.HookReads = sc.HookReads
 	s.PreOp = w.PreOp
 	s.PostOp = w.PostOp
 	s.OnCrash = w.OnCrash
